@@ -19,16 +19,26 @@ def main():
     except ValueError:
         seed = 20260923
     pid = a.pid.upper()
+    if a.replay:
+        a.replay = os.path.abspath(a.replay)      # ./check has cd'ed to /verif; we chdir to a scratch dir below
     ctx = common.Ctx(pid, a.tier, seed, a.replay)
     mod = importlib.import_module(pid.lower())
     # a path-less Script takes the current directory as its project (searched by get_references,
     # rewritten by refactorings): never let that be /verif or /repo
     os.makedirs(os.path.join(ctx.tmp, 'cwd'), exist_ok=True)
     os.chdir(os.path.join(ctx.tmp, 'cwd'))
-    try:
-        if a.replay:
+    if a.replay:
+        # a replay re-executes one recorded case and prints what it sees; it is not a check run: it writes no
+        # evidence and decides nothing
+        try:
             rc = mod.replay(ctx, a.replay)
-            sys.exit(rc or 0)
+        except Exception:
+            traceback.print_exc()
+            rc = 2
+        import shutil
+        shutil.rmtree(ctx.tmp, ignore_errors=True)
+        sys.exit(rc or 0)
+    try:
         mod.run(ctx)
     except SystemExit:
         raise
